@@ -980,7 +980,9 @@ fn spelling_oracle(portable: bool, given: &str, separated: Option<String>) -> St
         None => "-".into(),
         Some(b) if b == given => "ok".into(),
         Some(b) => {
-            if portable || given.contains("portable=1") || b.contains("portable=1") {
+            // the attached / long forms are rejected by design while `portable` is (or has been turned) on
+            let by_design = |o: &str| o.contains("portable=1") || o.starts_with("err:nonPortable") || o.starts_with("err:unseparated");
+            if portable || by_design(given) || by_design(&b) {
                 "-".into()
             } else {
                 format!("FAIL:separated spelling gives {b}")
